@@ -560,9 +560,25 @@ impl<'a, 'd> Gen<'a, 'd> {
                 let params: Vec<Ty> = (0..np).map(|_| self.sig_ty()).collect();
                 // methods called for their effect are common
                 let ret = if self.d.chance(50) { Ty::Unit } else { self.sig_ty() };
-                methods.push(TraitSig { name: format!("m{t}x{m}"), params, ret });
+                // (C19) method and trait names the back end has to escape or that look like its own
+                let mname = if self.cfg.hostile_names && self.d.chance(140) {
+                    const M: [&str; 14] = ["len", "range", "new", "init", "func", "strings", "main", "print", "cap", "append", "chan", "defer", "select", "apply"];
+                    let n = M[self.d.below(M.len())];
+                    if self.used_names.insert(format!("method:{n}")) { self.label("names:hostile-method"); n.to_string() } else { format!("m{t}x{m}") }
+                } else {
+                    format!("m{t}x{m}")
+                };
+                methods.push(TraitSig { name: mname, params, ret });
             }
-            self.p.traits.push(TraitDef { name: format!("Tr{t}"), methods: methods.clone() });
+            let tname = if self.cfg.hostile_names && self.d.chance(140) {
+                const T: [&str; 8] = ["error", "any", "Stringer", "Len", "Error", "Reader", "vtable", "Dyn"];
+                let n = T[self.d.below(T.len())];
+                let clash = self.used_names.iter().any(|u| u.eq_ignore_ascii_case(n));
+                if !clash && self.used_names.insert(n.to_string()) { self.label("names:hostile-trait"); n.to_string() } else { format!("Tr{t}") }
+            } else {
+                format!("Tr{t}")
+            };
+            self.p.traits.push(TraitDef { name: tname, methods: methods.clone() });
             self.label("trait");
             let k = 1 + self.d.below(3);
             let mut done: Vec<Ty> = vec![];
@@ -574,7 +590,7 @@ impl<'a, 'd> Gen<'a, 'd> {
                 }
                 done.push(ty.clone());
                 let impl_idx = self.p.impls.len();
-                self.p.impls.push(ImplDef { trait_: Some(t), for_ty: ty.clone(), methods: vec![] });
+                self.p.impls.push(ImplDef { trait_: Some(t), tparams: 0, for_ty: ty.clone(), methods: vec![] });
                 let mut fs = vec![];
                 for sig in &methods {
                     fs.push(self.gen_method(impl_idx, sig.name.clone(), &ty, &sig.params, &sig.ret));
@@ -596,7 +612,7 @@ impl<'a, 'd> Gen<'a, 'd> {
             }
             let ty = Ty::Adt(a, vec![]);
             let impl_idx = self.p.impls.len();
-            self.p.impls.push(ImplDef { trait_: None, for_ty: ty.clone(), methods: vec![] });
+            self.p.impls.push(ImplDef { trait_: None, tparams: 0, for_ty: ty.clone(), methods: vec![] });
             let nm = 1 + self.d.below(2);
             let mut fs = vec![];
             for m in 0..nm {
@@ -611,6 +627,57 @@ impl<'a, 'd> Gen<'a, 'd> {
             self.p.impls[impl_idx].methods = fs;
             self.label("impl:inherent");
         }
+        // generic inherent impls: `impl[T] Name[T] { fn m(self: Name[T], p: T, ..) -> .. }`
+        for a in 0..self.p.adts.len() {
+            let n = self.p.adts[a].tparams;
+            if n == 0 || !self.cfg.generics || !self.d.chance(if self.cfg.focus == Focus::Traits { 140 } else { 70 }) {
+                continue;
+            }
+            let ty = Ty::Adt(a, (0..n).map(Ty::Param).collect());
+            let impl_idx = self.p.impls.len();
+            self.p.impls.push(ImplDef { trait_: None, tparams: n, for_ty: ty.clone(), methods: vec![] });
+            let nm = 1 + self.d.below(2);
+            let mut fs = vec![];
+            for m in 0..nm {
+                let f = self.gen_generic_method(impl_idx, format!("gm{a}x{m}"), &ty, n);
+                fs.push(f);
+                self.usable_methods.push(f);
+            }
+            self.p.impls[impl_idx].methods = fs;
+            self.label("impl:generic-inherent");
+        }
+    }
+
+    /// a method of a generic inherent impl: generic in the impl's type parameters; one
+    /// parameter of each parameter's type keeps a value of that type reachable
+    fn gen_generic_method(&mut self, impl_idx: usize, name: String, self_ty: &Ty, n: u32) -> usize {
+        self.scope.clear();
+        self.cur_tparams = n;
+        self.cur_bounds.clear();
+        let idx = self.p.fns.len();
+        self.p.fns.push(FnDef::default());
+        let sv = self.new_var_named("self".into(), self_ty.clone(), true);
+        let mut taken = vec!["self".to_string()];
+        let mut params = vec![(sv, self_ty.clone())];
+        for k in 0..n {
+            let t = Ty::Param(k);
+            params.push((self.fresh_named("p", t.clone()), t));
+        }
+        for _ in 0..self.d.below(2) {
+            let t = self.sig_ty();
+            params.push((self.new_param(t.clone(), &mut taken), t));
+        }
+        let ret = match self.d.below(4) {
+            0 => Ty::Param(self.d.below(n as usize) as u32),
+            1 => self_ty.clone(),
+            2 => Ty::Tuple(vec![Ty::Param(self.d.below(n as usize) as u32), Ty::i32()]),
+            _ => self.sig_ty(),
+        };
+        let body = self.block(&ret, 3);
+        self.scope.clear();
+        self.cur_tparams = 0;
+        self.p.fns[idx] = FnDef { name, tparams: n, params, ret, body, owner: Some(impl_idx), bounds: vec![] };
+        idx
     }
 
     /// types implementing every trait of `bounds`
@@ -709,13 +776,22 @@ impl<'a, 'd> Gen<'a, 'd> {
         #[derive(Clone)]
         enum Cand {
             Static(usize),
+            Generic(usize, Vec<Option<Ty>>),
             Bound(u32, usize, usize),
             Dyn(VarId, usize, usize),
         }
         let mut cands: Vec<Cand> = vec![];
         for f in &self.usable_methods {
-            if &self.p.fns[*f].ret == t {
-                cands.push(Cand::Static(*f));
+            let def = &self.p.fns[*f];
+            if def.tparams == 0 {
+                if &def.ret == t {
+                    cands.push(Cand::Static(*f));
+                }
+            } else if !t.has_param() || self.cur_tparams > 0 {
+                let mut b = vec![None; def.tparams as usize];
+                if match_ty(&def.ret, t, &mut b) {
+                    cands.push(Cand::Generic(*f, b));
+                }
             }
         }
         for k in 0..self.cur_tparams {
@@ -784,6 +860,27 @@ impl<'a, 'd> Gen<'a, 'd> {
                     args.extend(self.call_args(&extra, fuel));
                     Expr::Call(Callee::Method(f, form), args)
                 }
+            }
+            Cand::Generic(f, b) => {
+                // the receiver's type arguments: what the result type fixes, the rest chosen here
+                let def = self.p.fns[f].clone();
+                let im = self.p.impls[def.owner.unwrap_or(0)].clone();
+                let targs: Vec<Ty> = b.into_iter().map(|x| x.unwrap_or_else(|| self.ty(1))).collect();
+                let recv_ty = im.for_ty.subst(&targs);
+                let extra: Vec<Ty> = def.params.iter().skip(1).map(|(_, t)| t.subst(&targs)).collect();
+                let known: Vec<VarId> =
+                    self.visible().into_iter().filter(|(v, k)| *k && self.var_ty(*v) == &recv_ty).map(|(v, _)| v).collect();
+                self.label("method:generic-impl");
+                let (recv, form) = if !known.is_empty() && self.d.bool() {
+                    self.label("method:inherent-dot");
+                    (Expr::Var(known[self.d.below(known.len())]), MForm::Dot)
+                } else {
+                    self.label("method:inherent-ufcs");
+                    (self.expr(&recv_ty, fuel - 1), MForm::TypeUfcs)
+                };
+                let mut args = vec![recv];
+                args.extend(self.call_args(&extra, fuel));
+                Expr::Call(Callee::Method(f, form), args)
             }
             Cand::Bound(k, tr, mi) => {
                 let sig = self.p.traits[tr].methods[mi].clone();
